@@ -460,4 +460,504 @@ theorem lrRun_core (T : LRTables) (o : Opts) (fuel : Nat) (toks : List MTok) :
     (lrRun T o fuel toks).core = lrCoreRun T o.maxDepth fuel toks :=
   lrLoop_core T o fuel ⟨[0], toks, [], [], []⟩ 0
 
+-- ---------------------------------------------------------------------------------------------
+-- skipped tokens are irrelevant (C17)
+
+/-- Normal form: skipped tokens removed from the input, comment trace forgotten. -/
+def LRCore.sk (c : LRCore) : LRCore := { c with input := sigToks c.input, comments := [] }
+
+def CoreStepOut.sk : CoreStepOut → CoreStepOut
+  | .next c => .next c.sk
+  | .stop c r => .stop c.sk r
+  | .fin c => .fin c.sk
+
+theorem coreDrain_sig : ∀ (inp : List MTok) (cm : List Nat), sigToks (coreDrain inp cm).1 = sigToks inp := by
+  intro inp
+  induction inp with
+  | nil => intro cm; rfl
+  | cons t rest ih =>
+    intro cm
+    simp only [coreDrain]
+    by_cases hs : t.skip = true
+    · simp only [hs, if_true]; rw [ih, sigToks_cons_skip hs]
+    · have hs' : t.skip = false := by simpa using hs
+      simp only [hs', Bool.false_eq_true, if_false]
+
+theorem coreDrainSt_sk (c : LRCore) : (coreDrainSt c).sk = c.sk := by
+  simp only [coreDrainSt, LRCore.sk, coreDrain_sig]
+
+theorem sigToks_drained (inp : List MTok) : Drained (sigToks inp) := by
+  intro t rest h
+  have : t ∈ sigToks inp := by rw [h]; exact List.mem_cons_self
+  simp only [sigToks, List.mem_filter, Bool.not_eq_true'] at this
+  exact this.2
+
+theorem coreDrainSt_of_drained {c : LRCore} (h : Drained c.input) : coreDrainSt c = c := by
+  simp only [coreDrainSt, coreDrain_of_drained h]
+
+theorem coreAction_sk (T : LRTables) (c : LRCore) (p : Nat) :
+    coreAction T c.sk p = (coreAction T c p).map (fun x => (x.1.sk, x.2)) := by
+  unfold coreAction
+  cases T.prods[p]? with
+  | none => rfl
+  | some pr =>
+    simp only
+    have : c.sk.items = c.items := rfl
+    rw [this]
+    split <;> rfl
+
+theorem coreGoto_sk (T : LRTables) (c : LRCore) (n nt : Nat) : (coreGoto T c n nt).sk = coreGoto T c.sk n nt := by
+  unfold coreGoto
+  have : c.sk.states = c.states := rfl
+  rw [this]
+  split
+  · rfl
+  · cases c.states.drop n with
+    | nil => rfl
+    | cons top rest =>
+      simp only
+      cases (T.rows[top]?).bind (fun r => findGoto r nt) with
+      | none => rfl
+      | some g => rfl
+
+theorem coreAct_sk (T : LRTables) (c : LRCore) (hd : Drained c.input) : (coreAct T c).sk = coreAct T c.sk := by
+  have hterm : nextTerm c.sk.input = nextTerm c.input ∧ c.sk.input.head? = c.input.head? := by
+    simp only [LRCore.sk]
+    cases hin : c.input with
+    | nil => exact ⟨rfl, rfl⟩
+    | cons t rest => rw [sigToks_cons_sig (hd t rest hin)]; exact ⟨rfl, rfl⟩
+  unfold coreAct
+  have h1 : c.sk.states = c.states := rfl
+  rw [h1, hterm.1, hterm.2]
+  cases hst : c.states with
+  | nil => rfl
+  | cons cur sts =>
+    simp only
+    cases T.rows[cur]? with
+    | none => rfl
+    | some row =>
+      simp only
+      cases findAct row (nextTerm c.input) with
+      | none => rfl
+      | some act =>
+        cases act with
+        | shift next =>
+          simp only
+          cases hin : c.input with
+          | nil =>
+            have : c.sk.input = [] := by simp [LRCore.sk, hin, sigToks]
+            rw [this]; rfl
+          | cons t rest =>
+            have : c.sk.input = t :: sigToks rest := by
+              simp only [LRCore.sk, hin]; exact sigToks_cons_sig (hd t rest hin)
+            rw [this]
+            simp [CoreStepOut.sk, LRCore.sk, hst]
+        | reduce nt p =>
+          simp only
+          rw [coreAction_sk]
+          cases coreAction T c p with
+          | none => rfl
+          | some x =>
+            obtain ⟨c', n⟩ := x
+            exact coreGoto_sk T c' n nt
+        | accept =>
+          simp only
+          cases T.prods.findIdx? (·.lhs == T.start) with
+          | none => rfl
+          | some p0 =>
+            simp only
+            rw [coreAction_sk]
+            cases coreAction T c p0 with
+            | none => rfl
+            | some x => rfl
+
+theorem coreStep_sk (T : LRTables) (md : Option Nat) (c : LRCore) : (coreStep T md c).sk = coreStep T md c.sk := by
+  unfold coreStep
+  have hdep : coreDepthExceeded md c.sk = coreDepthExceeded md c := rfl
+  rw [hdep]
+  split
+  · rfl
+  · have hdr : Drained c.sk.input := sigToks_drained c.input
+    have hdc : Drained (coreDrainSt c).input := coreDrain_drained _ _
+    rw [coreDrainSt_of_drained hdr, coreAct_sk T _ hdc, coreDrainSt_sk]
+
+/-- **Skipped tokens never influence parsing (LR)**, on the tree-free loop. -/
+theorem lrCore_sk (T : LRTables) (md : Option Nat) : ∀ (fuel : Nat) (c : LRCore) (steps : Nat),
+    (lrCore T md fuel c.sk steps).ra = (lrCore T md fuel c steps).ra := by
+  intro fuel
+  induction fuel with
+  | zero => intro c steps; rfl
+  | succ fuel ih =>
+    intro c steps
+    rw [lrCore, lrCore, ← coreStep_sk]
+    cases coreStep T md c with
+    | next c' => exact ih c' _
+    | stop c' r => rfl
+    | fin c' => rfl
+
+theorem lrCoreRun_skip_irrelevant (T : LRTables) (md : Option Nat) (fuel : Nat) (toks : List MTok) :
+    (lrCoreRun T md fuel (sigToks toks)).ra = (lrCoreRun T md fuel toks).ra := by
+  unfold lrCoreRun
+  rw [← lrCore_sk T md fuel ⟨[0], sigToks toks, [], [], []⟩, ← lrCore_sk T md fuel ⟨[0], toks, [], [], []⟩]
+  simp only [LRCore.sk, sigToks_idem]
+
+-- ---------------------------------------------------------------------------------------------
+-- depth limit (C20)
+
+theorem coreStep_depth (T : LRTables) (m : Nat) (c : LRCore) :
+    coreStep T (some m) c = coreStep T none c ∨
+    (c.states.length > m ∧ coreStep T (some m) c = .stop c (.depth c.states.length)) := by
+  unfold coreStep coreDepthExceeded
+  by_cases h : c.states.length > m
+  · exact Or.inr ⟨h, by simp [h]⟩
+  · exact Or.inl (by simp [h])
+
+theorem lrCore_depth (T : LRTables) (m : Nat) : ∀ (fuel : Nat) (c : LRCore) (steps : Nat),
+    lrCore T (some m) fuel c steps = lrCore T none fuel c steps ∨
+    ∃ d, d > m ∧ (lrCore T (some m) fuel c steps).res = .depth d := by
+  intro fuel
+  induction fuel with
+  | zero => intro c steps; exact Or.inl rfl
+  | succ fuel ih =>
+    intro c steps
+    rw [lrCore, lrCore]
+    rcases coreStep_depth T m c with h | ⟨hd, h⟩
+    · rw [h]
+      cases coreStep T none c with
+      | next c' => exact ih c' _
+      | stop c' r => exact Or.inl rfl
+      | fin c' => exact Or.inl rfl
+    · rw [h]
+      exact Or.inr ⟨_, hd, rfl⟩
+
+-- ---------------------------------------------------------------------------------------------
+-- lifting step invariants to runs
+
+/-- Every run that does not run out of fuel ends with a `stop` or `fin` step taken from a state that
+    satisfies any invariant preserved by `next` steps. -/
+theorem lrCore_reach (T : LRTables) (md : Option Nat) (I : LRCore → Prop)
+    (hnext : ∀ c c', I c → coreStep T md c = .next c' → I c') :
+    ∀ (fuel : Nat) (c : LRCore) (steps : Nat), I c →
+      (lrCore T md fuel c steps).res = .fuel ∨
+      ∃ c0 c' k, I c0 ∧
+        ((∃ r, coreStep T md c0 = .stop c' r ∧ lrCore T md fuel c steps = coreOut c' r k) ∨
+         (coreStep T md c0 = .fin c' ∧ lrCore T md fuel c steps = coreOut c' .ok k)) := by
+  intro fuel
+  induction fuel with
+  | zero => intro c steps _; exact Or.inl rfl
+  | succ fuel ih =>
+    intro c steps hc
+    rw [lrCore]
+    cases hst : coreStep T md c with
+    | next c' => exact ih c' _ (hnext c c' hc hst)
+    | stop c' r => exact Or.inr ⟨c, c', steps, hc, Or.inl ⟨r, hst, rfl⟩⟩
+    | fin c' => exact Or.inr ⟨c, c', steps + 1, hc, Or.inr ⟨hst, rfl⟩⟩
+
+theorem lrLoop_reach (T : LRTables) (o : Opts) (I : LRSt → Prop)
+    (hnext : ∀ s s', I s → lrStep T o s = .next s' → I s') :
+    ∀ (fuel : Nat) (s : LRSt) (steps : Nat), I s →
+      (lrLoop T o fuel s steps).res = .fuel ∨
+      ∃ s0 s' k, I s0 ∧
+        ((∃ r, lrStep T o s0 = .stop s' r ∧ lrLoop T o fuel s steps = lrAbort s' r k) ∨
+         (lrStep T o s0 = .fin s' ∧ lrLoop T o fuel s steps = lrFinish o.trim s' k)) := by
+  intro fuel
+  induction fuel with
+  | zero => intro s steps _; exact Or.inl rfl
+  | succ fuel ih =>
+    intro s steps hs
+    rw [lrLoop_step]
+    cases hst : lrStep T o s with
+    | next s' => exact ih s' _ (hnext s s' hs hst)
+    | stop s' r => exact Or.inr ⟨s, s', steps, hs, Or.inl ⟨r, hst, rfl⟩⟩
+    | fin s' => exact Or.inr ⟨s, s', steps + 1, hs, Or.inr ⟨hst, rfl⟩⟩
+
+-- ---------------------------------------------------------------------------------------------
+-- what a step does to input and comments
+
+def CoreStepOut.st : CoreStepOut → LRCore
+  | .next c => c
+  | .stop c _ => c
+  | .fin c => c
+
+def LRStepOut.st : LRStepOut → LRSt
+  | .next s => s
+  | .stop s _ => s
+  | .fin s => s
+
+theorem LRStepOut.core_st (x : LRStepOut) : x.core.st = x.st.core := by cases x <;> rfl
+
+theorem coreDrain_pre : ∀ (inp : List MTok) (cm : List Nat), ∃ pre, inp = pre ++ (coreDrain inp cm).1 ∧
+    (coreDrain inp cm).2.reverse = cm.reverse ++ commentIds (pre.filter (·.skip)) := by
+  intro inp
+  induction inp with
+  | nil => intro cm; exact ⟨[], rfl, by simp [coreDrain, commentIds]⟩
+  | cons t rest ih =>
+    intro cm
+    simp only [coreDrain]
+    by_cases hs : t.skip = true
+    · simp only [hs, if_true]
+      obtain ⟨pre, h1, h2⟩ := ih (if t.comment then t.id :: cm else cm)
+      refine ⟨t :: pre, by rw [List.cons_append, ← h1], ?_⟩
+      rw [h2]
+      cases hc : t.comment <;> simp [commentIds, hs, hc]
+    · have hs' : t.skip = false := by simpa using hs
+      simp only [hs', Bool.false_eq_true, if_false]
+      exact ⟨[], rfl, by simp [commentIds]⟩
+
+theorem coreAction_fields {T : LRTables} {c c' : LRCore} {p n : Nat} (h : coreAction T c p = some (c', n)) :
+    c'.input = c.input ∧ c'.comments = c.comments ∧ c'.states = c.states := by
+  unfold coreAction at h
+  cases hpr : T.prods[p]? with
+  | none => simp [hpr] at h
+  | some pr =>
+    simp only [hpr] at h
+    split at h
+    · cases h
+    · injection h with h
+      injection h with h1 h2
+      subst h1
+      exact ⟨rfl, rfl, rfl⟩
+
+theorem coreGoto_st (T : LRTables) (c : LRCore) (n nt : Nat) :
+    (coreGoto T c n nt).st.input = c.input ∧ (coreGoto T c n nt).st.comments = c.comments := by
+  unfold coreGoto
+  split
+  · exact ⟨rfl, rfl⟩
+  · cases c.states.drop n with
+    | nil => exact ⟨rfl, rfl⟩
+    | cons top rest =>
+      simp only
+      cases (T.rows[top]?).bind (fun r => findGoto r nt) with
+      | none => exact ⟨rfl, rfl⟩
+      | some g => exact ⟨rfl, rfl⟩
+
+/-- The table action leaves the comments alone and consumes at most the (significant) head token. -/
+theorem coreAct_st (T : LRTables) (c : LRCore) (hd : Drained c.input) :
+    (coreAct T c).st.comments = c.comments ∧
+    ((coreAct T c).st.input = c.input ∨ ∃ t, t.skip = false ∧ c.input = t :: (coreAct T c).st.input) := by
+  unfold coreAct
+  cases hst : c.states with
+  | nil => exact ⟨rfl, Or.inl rfl⟩
+  | cons cur sts =>
+    simp only
+    cases T.rows[cur]? with
+    | none => exact ⟨rfl, Or.inl rfl⟩
+    | some row =>
+      simp only
+      cases findAct row (nextTerm c.input) with
+      | none => exact ⟨rfl, Or.inl rfl⟩
+      | some act =>
+        cases act with
+        | shift next =>
+          simp only
+          cases hin : c.input with
+          | nil => simp only; exact ⟨rfl, Or.inl hin⟩
+          | cons t rest => exact ⟨rfl, Or.inr ⟨t, hd t rest hin, rfl⟩⟩
+        | reduce nt p =>
+          simp only
+          cases hca : coreAction T c p with
+          | none => exact ⟨rfl, Or.inl rfl⟩
+          | some x =>
+            obtain ⟨c', n⟩ := x
+            obtain ⟨h1, h2, _⟩ := coreAction_fields hca
+            obtain ⟨h3, h4⟩ := coreGoto_st T c' n nt
+            simp only
+            exact ⟨by rw [h4, h2], Or.inl (by rw [h3, h1])⟩
+        | accept =>
+          simp only
+          cases T.prods.findIdx? (·.lhs == T.start) with
+          | none => exact ⟨rfl, Or.inl rfl⟩
+          | some p0 =>
+            simp only
+            cases hca : coreAction T c p0 with
+            | none => exact ⟨rfl, Or.inl rfl⟩
+            | some x =>
+              obtain ⟨c', n⟩ := x
+              obtain ⟨h1, h2, _⟩ := coreAction_fields hca
+              exact ⟨h2, Or.inl h1⟩
+
+/-- One iteration consumes a prefix of the input and reports exactly its comment tokens. -/
+theorem coreStep_pre (T : LRTables) (md : Option Nat) (c : LRCore) :
+    ∃ pre, c.input = pre ++ (coreStep T md c).st.input ∧
+      (coreStep T md c).st.comments.reverse = c.comments.reverse ++ commentIds (pre.filter (·.skip)) := by
+  unfold coreStep
+  split
+  · exact ⟨[], rfl, by simp [CoreStepOut.st, commentIds]⟩
+  · obtain ⟨pre, h1, h2⟩ := coreDrain_pre c.input c.comments
+    have hd : Drained (coreDrainSt c).input := coreDrain_drained _ _
+    obtain ⟨h3, h4⟩ := coreAct_st T (coreDrainSt c) hd
+    have hi : (coreDrainSt c).input = (coreDrain c.input c.comments).1 := rfl
+    have hc : (coreDrainSt c).comments = (coreDrain c.input c.comments).2 := rfl
+    rw [h3, hc, h2]
+    rcases h4 with h4 | ⟨t, ht, h4⟩
+    · exact ⟨pre, by rw [h4, hi]; exact h1, rfl⟩
+    · refine ⟨pre ++ [t], ?_, ?_⟩
+      · rw [List.append_assoc, List.singleton_append, ← h4, hi]; exact h1
+      · simp [List.filter_append, ht]
+
+theorem coreGoto_not_fin {T : LRTables} {c c' : LRCore} {n nt : Nat} : coreGoto T c n nt ≠ .fin c' := by
+  unfold coreGoto
+  split
+  · intro h; cases h
+  · cases c.states.drop n with
+    | nil => intro h; cases h
+    | cons top rest =>
+      simp only
+      cases (T.rows[top]?).bind (fun r => findGoto r nt) with
+      | none => intro h; cases h
+      | some g => intro h; cases h
+
+theorem coreGoto_stop {T : LRTables} {c c' : LRCore} {n nt : Nat} {r : Res} (h : coreGoto T c n nt = .stop c' r) :
+    r = .internal := by
+  unfold coreGoto at h
+  split at h
+  · injection h with _ h; exact h.symm
+  · cases hd : c.states.drop n with
+    | nil => simp only [hd] at h; injection h with _ h; exact h.symm
+    | cons top rest =>
+      simp only [hd] at h
+      cases hg : (T.rows[top]?).bind (fun r => findGoto r nt) with
+      | none => simp only [hg] at h; injection h with _ h; exact h.symm
+      | some g => simp only [hg] at h; cases h
+
+/-- A `fin` step is an `Accept` entry of the table for the type of the next significant token. -/
+theorem coreAct_fin_accept {T : LRTables} {c c' : LRCore} (h : coreAct T c = .fin c') :
+    ∃ row, row ∈ T.rows ∧ findAct row (nextTerm c.input) = some .accept := by
+  unfold coreAct at h
+  cases hst : c.states with
+  | nil => simp only [hst] at h; cases h
+  | cons cur sts =>
+    simp only [hst] at h
+    cases hrow : T.rows[cur]? with
+    | none => simp only [hrow] at h; cases h
+    | some row =>
+      simp only [hrow] at h
+      cases hact : findAct row (nextTerm c.input) with
+      | none => simp only [hact] at h; cases h
+      | some act =>
+        simp only [hact] at h
+        cases act with
+        | shift next =>
+          simp only at h
+          cases hin : c.input with
+          | nil => simp only [hin] at h; cases h
+          | cons t rest => simp only [hin] at h; cases h
+        | reduce nt p =>
+          simp only at h
+          cases hca : coreAction T c p with
+          | none => simp only [hca] at h; cases h
+          | some x => simp only [hca] at h; exact absurd h coreGoto_not_fin
+        | accept => exact ⟨row, List.mem_of_getElem? hrow, hact⟩
+
+/-- Only `fin` steps report success. -/
+theorem coreStep_stop_ne_ok {T : LRTables} {md : Option Nat} {c c' : LRCore} {r : Res}
+    (h : coreStep T md c = .stop c' r) : r ≠ .ok := by
+  unfold coreStep at h
+  split at h
+  · injection h with _ h; rw [← h]; intro h'; cases h'
+  · generalize coreDrainSt c = d at h
+    unfold coreAct at h
+    cases hst : d.states with
+    | nil => simp only [hst] at h; injection h with _ h; rw [← h]; intro h'; cases h'
+    | cons cur sts =>
+      simp only [hst] at h
+      cases hrow : T.rows[cur]? with
+      | none => simp only [hrow] at h; injection h with _ h; rw [← h]; intro h'; cases h'
+      | some row =>
+        simp only [hrow] at h
+        cases hact : findAct row (nextTerm d.input) with
+        | none => simp only [hact] at h; injection h with _ h; rw [← h]; intro h'; cases h'
+        | some act =>
+          simp only [hact] at h
+          cases act with
+          | shift next =>
+            simp only at h
+            cases hin : d.input with
+            | nil => simp only [hin] at h; injection h with _ h; rw [← h]; intro h'; cases h'
+            | cons t rest => simp only [hin] at h; cases h
+          | reduce nt p =>
+            simp only at h
+            cases hca : coreAction T d p with
+            | none => simp only [hca] at h; injection h with _ h; rw [← h]; intro h'; cases h'
+            | some x => simp only [hca] at h; rw [coreGoto_stop h]; intro h'; cases h'
+          | accept =>
+            simp only at h
+            cases hp0 : T.prods.findIdx? (·.lhs == T.start) with
+            | none => simp only [hp0] at h; injection h with _ h; rw [← h]; intro h'; cases h'
+            | some p0 =>
+              simp only [hp0] at h
+              cases hca : coreAction T d p0 with
+              | none => simp only [hca] at h; injection h with _ h; rw [← h]; intro h'; cases h'
+              | some x => simp only [hca] at h; cases h
+
+/-- `Accept` is entered only for the end-of-input terminal. -/
+def acceptOnEoi (T : LRTables) : Bool :=
+  T.rows.all fun row => row.acts.all fun (t, a) => match a with
+    | .accept => t == 0
+    | _ => true
+
+theorem acceptOnEoi_of_valid {T : LRTables} {gprods : List Rule} (hv : lrTableValid T gprods = true) :
+    acceptOnEoi T = true := by
+  simp only [lrTableValid, Bool.and_eq_true] at hv
+  obtain ⟨_, hrows⟩ := hv
+  simp only [acceptOnEoi, List.all_eq_true]
+  intro row hrow
+  obtain ⟨q, hq⟩ := List.mem_iff_getElem?.1 hrow
+  have hmem : (row, q) ∈ T.rows.zipIdx := by
+    rw [List.mem_zipIdx_iff_getElem?]; simpa using hq
+  have := (List.all_eq_true.1 hrows) (row, q) hmem
+  simp only [List.all_eq_true] at this
+  intro x hx
+  have hx' := this x hx
+  obtain ⟨t, a⟩ := x
+  cases a with
+  | shift _ => rfl
+  | reduce _ _ => rfl
+  | accept =>
+    simp only [Bool.and_eq_true] at hx'
+    exact hx'.1
+
+/-- With `acceptOnEoi`, no significant end-of-input-typed token and a drained input, a `fin` step
+    happens only when the whole input is consumed. -/
+theorem coreStep_fin_nil {T : LRTables} {md : Option Nat} {c c' : LRCore} (hacc : acceptOnEoi T = true)
+    (hne : ∀ t ∈ c.input, t.skip = false → t.ty ≠ 0) (h : coreStep T md c = .fin c') : c'.input = [] := by
+  obtain ⟨pre, hpre, _⟩ := coreStep_pre T md c
+  rw [h] at hpre
+  simp only [CoreStepOut.st] at hpre
+  unfold coreStep at h
+  split at h
+  · cases h
+  · have hd : Drained (coreDrainSt c).input := coreDrain_drained _ _
+    obtain ⟨_, h4⟩ := coreAct_st T (coreDrainSt c) hd
+    rw [h] at h4
+    simp only [CoreStepOut.st] at h4
+    obtain ⟨row, hrow, hact⟩ := coreAct_fin_accept h
+    have h0 : nextTerm (coreDrainSt c).input = 0 := by
+      have := mem_of_findAct hact
+      simp only [acceptOnEoi, List.all_eq_true] at hacc
+      have := hacc row hrow _ this
+      simpa using this
+    have hin : (coreDrainSt c).input = c'.input := by
+      rcases h4 with h4 | ⟨t, _, h4⟩
+      · exact h4.symm
+      · exfalso
+        obtain ⟨pre2, hp2, _⟩ := coreDrain_pre c.input c.comments
+        have hi : (coreDrainSt c).input = (coreDrain c.input c.comments).1 := rfl
+        rw [← hi, h4] at hp2
+        -- t is significant, head of drained input, type 0
+        have ht0 : t.ty = 0 := by rw [h4] at h0; exact h0
+        have htm : t ∈ c.input := by rw [hp2]; simp
+        exact hne t htm (hd t _ h4) ht0
+    rw [← hin]
+    cases hi : (coreDrainSt c).input with
+    | nil => rfl
+    | cons t rest =>
+      exfalso
+      obtain ⟨pre2, hp2, _⟩ := coreDrain_pre c.input c.comments
+      have hi' : (coreDrainSt c).input = (coreDrain c.input c.comments).1 := rfl
+      rw [← hi', hi] at hp2
+      have ht0 : t.ty = 0 := by rw [hi] at h0; exact h0
+      have htm : t ∈ c.input := by rw [hp2]; simp
+      exact hne t htm (hd t _ hi) ht0
+
 end ParolModel
